@@ -1,4 +1,310 @@
-import BipVerif.Model.Electrum
+/-
+C20 — Electrum v1/v2 wallets, brainwallets, SPL-token program-derived addresses.
+Hashes (`sha256`, `sha256d`, `pbkdf2HmacSha512`, `scrypt`) and secp256k1 arithmetic are opaque.
+Helper lemmas: `BipVerif/Lemmas/Electrum.lean`.
+-/
+import BipVerif.Lemmas.Electrum
+
 namespace BipVerif.Props.C20
-theorem placeholder : True := trivial
+open BipVerif BipVerif.Prim BipVerif.Model BipVerif.Model.ElectrumLemmas
+
+/-! ### 1. Electrum v1 child keys -/
+
+/-- the sequence number is `int(sha256d(ascii("<addr>:<change>:") ‖ K))` with `K` the
+uncompressed master public key without its `04` prefix -/
+theorem ev1Sequence_spec (w : Ev1) (change addr : Nat) :
+    ev1Sequence w change addr = match pubUncompressed .secp256k1 w.pub with
+      | some u => .ok (Bytes.toNatBE (sha256d
+          ((toString addr ++ ":" ++ toString change ++ ":").toUTF8.toList ++ u.drop 1)))
+      | none => .error .value :=
+  ev1Sequence_eq w change addr
+
+/-- **child private key = (master + sequence) mod n**, 32 bytes big-endian -/
+theorem electrumV1_child_spec {w : Ev1} {change addr : Nat} {k : Bytes}
+    (h : ev1PrivateKey w change addr = .ok k) :
+    ∃ m seq, w.priv = some m ∧ ev1Sequence w change addr = .ok seq ∧
+      Bytes.toNatBE k = (Bytes.toNatBE m + seq) % Prim.secp256k1.n ∧ k.length = 32 ∧
+      change ≤ 2 ^ 32 - 1 ∧ addr ≤ 2 ^ 32 - 1 ∧ privValid .secp256k1 k = true := by
+  rw [ev1PrivateKey_eq] at h
+  split at h
+  · cases h
+  · rename_i m hm
+    split at h
+    · cases h
+    · rename_i hr
+      split at h
+      · cases h
+      · rename_i seq hseq
+        split at h
+        · cases h
+        · rename_i k' hk'
+          split at h
+          · rename_i hv
+            cases Except.ok.inj h
+            obtain ⟨h1, h2⟩ := toBytesBE_toNatBE hk'
+            exact ⟨m, seq, hm, hseq, h1, h2, by omega, by omega, hv⟩
+          · cases h
+
+/-- the complete behaviour on a private wallet with in-range indices: the only failure left is
+a zero child key -/
+theorem electrumV1_child_total {w : Ev1} {change addr : Nat} {m : Bytes} {seq : Nat}
+    (hm : w.priv = some m) (hc : change ≤ 2 ^ 32 - 1) (ha : addr ≤ 2 ^ 32 - 1)
+    (hs : ev1Sequence w change addr = .ok seq) :
+    ev1PrivateKey w change addr =
+      if (Bytes.toNatBE m + seq) % Prim.secp256k1.n = 0 then .error .value
+      else .ok (Bytes.ofNatBE 32 ((Bytes.toNatBE m + seq) % Prim.secp256k1.n)) := by
+  rw [ev1PrivateKey_eq, hm]
+  dsimp only
+  rw [if_neg (by omega), hs]
+  dsimp only
+  rw [toBytesBE_mod_n]
+  dsimp only
+  have hlt := Nat.mod_lt (Bytes.toNatBE m + seq) secp_n_pos
+  have hval : Bytes.toNatBE (Bytes.ofNatBE 32 ((Bytes.toNatBE m + seq) % Prim.secp256k1.n))
+      = (Bytes.toNatBE m + seq) % Prim.secp256k1.n :=
+    toNatBE_ofNatBE (Nat.lt_trans hlt secp_n_lt)
+  by_cases h0 : (Bytes.toNatBE m + seq) % Prim.secp256k1.n = 0
+  · rw [if_pos h0, if_neg]
+    unfold privValid
+    rw [hval, h0]; simp
+  · rw [if_neg h0, if_pos]
+    unfold privValid
+    rw [hval]
+    simp only [length_ofNatBE, decide_true, Bool.true_and, Bool.and_eq_true, decide_eq_true_eq]
+    exact ⟨by omega, hlt⟩
+
+/-- indices beyond 32 bits are refused -/
+theorem electrumV1_index_range (w : Ev1) (change addr : Nat)
+    (h : change > 2 ^ 32 - 1 ∨ addr > 2 ^ 32 - 1) : ev1PrivateKey w change addr = .error .value := by
+  rw [ev1PrivateKey_eq]
+  cases w.priv with
+  | none => rfl
+  | some m => dsimp only; rw [if_pos h]
+
+/-- a public-only wallet has no private child keys -/
+theorem electrumV1_public_only (w : Ev1) (change addr : Nat) (h : w.priv = none) :
+    ev1PrivateKey w change addr = .error .value := by
+  rw [ev1PrivateKey_eq, h]
+
+/-- error kinds: only `ValueError` (in particular `to_bytes(32)` cannot overflow) -/
+theorem electrumV1_errors {w : Ev1} {change addr : Nat} {e : Err}
+    (h : ev1PrivateKey w change addr = .error e) : e = .value := by
+  rw [ev1PrivateKey_eq] at h
+  split at h
+  · exact (Except.error.inj h).symm
+  · split at h
+    · exact (Except.error.inj h).symm
+    · split at h
+      · rename_i e' he
+        cases Except.error.inj h
+        exact ev1Sequence_error he
+      · rw [toBytesBE_mod_n] at h
+        dsimp only at h
+        split at h
+        · cases h
+        · exact (Except.error.inj h).symm
+
+/-! ### 2. the decimal index rendering is injective -/
+
+/-- `str(n)` is injective on naturals -/
+theorem dec_injective {a b : Nat} (h : toString a = toString b) : a = b := toString_nat_inj h
+
+/-- … and `int(str(n)) = n` for the ASCII-digit reading -/
+theorem dec_roundtrip (n : Nat) : decVal (toString n).toList = n := by
+  rw [toString_toList]; exact decVal_toDigits n
+
+/-- the prefix `"{addr}:{change}:"` consists of the two decimal renderings, each followed by `':'`,
+and contains exactly two `':'` (digits are not `':'`) -/
+theorem prefix_shape (addr change : Nat) :
+    (toString addr ++ ":" ++ toString change ++ ":").toList
+      = (toString addr).toList ++ ':' :: ((toString change).toList ++ [':']) ∧
+    (toString addr ++ ":" ++ toString change ++ ":").toList.count ':' = 2 ∧
+    ':' ∉ (toString addr).toList ∧ ':' ∉ (toString change).toList := by
+  refine ⟨?_, ev1PrefixStr_count addr change, ?_, ?_⟩
+  · have := ev1PrefixStr_toList addr change
+    rw [toString_toList, toString_toList]; exact this
+  · rw [toString_toList]; exact colon_not_mem_toDigits addr
+  · rw [toString_toList]; exact colon_not_mem_toDigits change
+
+/-- **the prefix determines `(addr, change)`** -/
+theorem prefix_injective {a c a' c' : Nat}
+    (h : toString a ++ ":" ++ toString c ++ ":" = toString a' ++ ":" ++ toString c' ++ ":") :
+    a = a' ∧ c = c' := ev1PrefixStr_inj h
+
+/-- the same at byte level and including the key: for master public keys of equal length the
+hashed message determines the index pair and the key -/
+theorem message_injective {a c a' c' : Nat} {K K' : Bytes} (hl : K.length = K'.length)
+    (h : (toString a ++ ":" ++ toString c ++ ":").toUTF8.toList ++ K
+       = (toString a' ++ ":" ++ toString c' ++ ":").toUTF8.toList ++ K') :
+    a = a' ∧ c = c' ∧ K = K' := ev1Msg_inj hl h
+
+/-! ### 3. Electrum v2 is BIP-32 -/
+
+/-- standard wallets: `m/change/index` -/
+theorem electrumV2_standard_is_bip32 (master : Node) (c i : Nat) (hd : master.depth = 0)
+    (hc : c ≤ 2 ^ 32 - 1) (hi : i ≤ 2 ^ 32 - 1) :
+    ev2Derive false master c i = (slip10ChildKey master c >>= fun x => slip10ChildKey x i) := by
+  rw [ev2Derive_standard_eq master c i hd, if_neg (by omega)]
+
+/-- segwit wallets: `m/0'/change/index` -/
+theorem electrumV2_segwit_is_bip32 (master : Node) (c i : Nat) (hd : master.depth = 0)
+    (hc : c ≤ 2 ^ 32 - 1) (hi : i ≤ 2 ^ 32 - 1) :
+    ev2Derive true master c i =
+      (slip10ChildKey master (harden 0) >>= fun a =>
+        slip10ChildKey a c >>= fun x => slip10ChildKey x i) := by
+  rw [ev2Derive_segwit_eq master c i hd]
+  congr 1
+  funext a
+  rw [if_neg (by omega)]
+
+/-- the same as path derivation -/
+theorem electrumV2_standard_is_path (master : Node) (c i : Nat) (hd : master.depth = 0)
+    (hc : c ≤ 2 ^ 32 - 1) (hi : i ≤ 2 ^ 32 - 1) :
+    ev2Derive false master c i = derivePath master { elems := [c, i], absolute := true } := by
+  rw [electrumV2_standard_is_bip32 master c i hd hc hi]
+  unfold derivePath derivePathWith
+  dsimp only
+  rw [if_neg (by simp [hd])]
+  simp only [List.foldlM_cons, List.foldlM_nil, bind, Except.bind, pure, Except.pure]
+  cases slip10ChildKey master c with
+  | error e => rfl
+  | ok x => dsimp only; cases slip10ChildKey x i <;> rfl
+
+theorem electrumV2_segwit_is_path (master : Node) (c i : Nat) (hd : master.depth = 0)
+    (hc : c ≤ 2 ^ 32 - 1) (hi : i ≤ 2 ^ 32 - 1) :
+    ev2Derive true master c i = derivePath master { elems := [harden 0, c, i], absolute := true } := by
+  rw [electrumV2_segwit_is_bip32 master c i hd hc hi]
+  unfold derivePath derivePathWith
+  dsimp only
+  rw [if_neg (by simp [hd])]
+  simp only [List.foldlM_cons, List.foldlM_nil, bind, Except.bind, pure, Except.pure]
+  cases slip10ChildKey master (harden 0) with
+  | error e => rfl
+  | ok a =>
+    dsimp only
+    cases slip10ChildKey a c with
+    | error e => rfl
+    | ok x => dsimp only; cases slip10ChildKey x i <;> rfl
+
+/-- a non-master node is refused with `ValueError`, whatever the indices -/
+theorem electrumV2_nonmaster (segwit : Bool) (master : Node) (c i : Nat) (h : master.depth > 0) :
+    ev2Derive segwit master c i = .error .value := ev2Derive_nonmaster segwit master c i h
+
+/-- out-of-range indices: `Bip32PathError` (standard wallets) -/
+theorem electrumV2_standard_index_range (master : Node) (c i : Nat) (hd : master.depth = 0)
+    (h : c > 2 ^ 32 - 1 ∨ i > 2 ^ 32 - 1) : ev2Derive false master c i = .error .path := by
+  rw [ev2Derive_standard_eq master c i hd, if_pos h]
+
+/-- out-of-range indices: `Bip32PathError` (segwit wallets; the account key `m/0'` is derived
+first, so its failure — if any — takes precedence) -/
+theorem electrumV2_segwit_index_range (master : Node) (c i : Nat) (hd : master.depth = 0)
+    (h : c > 2 ^ 32 - 1 ∨ i > 2 ^ 32 - 1) {a : Node} (ha : slip10ChildKey master (harden 0) = .ok a) :
+    ev2Derive true master c i = .error .path := by
+  rw [ev2Derive_segwit_eq master c i hd, ha]
+  show (if c > 2 ^ 32 - 1 ∨ i > 2 ^ 32 - 1 then _ else _) = _
+  rw [if_pos h]
+
+theorem electrumV2_segwit_account_error (master : Node) (c i : Nat) (hd : master.depth = 0)
+    {e : Err} (ha : slip10ChildKey master (harden 0) = .error e) :
+    ev2Derive true master c i = .error e := by
+  rw [ev2Derive_segwit_eq master c i hd, ha]; rfl
+
+/-! ### 4. brainwallets -/
+
+theorem brainwallet_key_is_hash (p : Bytes) :
+    brainKey .sha256 p = Prim.sha256 p ∧
+    brainKey .doubleSha256 p = sha256d p ∧
+    (∀ salt n, brainKey (.pbkdf2 salt n) p = pbkdf2HmacSha512 p salt n 32) ∧
+    (∀ salt n r p', brainKey (.scrypt salt n r p') p = Prim.scrypt p salt n r p' 32) :=
+  ⟨rfl, rfl, fun _ _ => rfl, fun _ _ _ _ => rfl⟩
+
+/-- every algorithm yields a 32-byte key -/
+theorem brainwallet_key_length (a : BrainAlgo) (p : Bytes) : (brainKey a p).length = 32 := by
+  cases a with
+  | sha256 => exact sha256_length p
+  | doubleSha256 => exact sha256d_length p
+  | pbkdf2 salt n => exact pbkdf2HmacSha512_length p salt n 32
+  | scrypt salt n r p' => exact scrypt_length p salt n r p' 32
+
+/-! ### 5. program-derived addresses -/
+
+/-- an accepted PDA is the SHA-256 digest, 32 bytes, and not a valid ed25519 public key -/
+theorem createPda_offcurve {s : List Bytes} {p d : Bytes} (h : createPda s p = some d) :
+    pubValid .ed25519 d = false ∧ d.length = 32 := by
+  obtain ⟨h1, h2, _⟩ := createPda_some h
+  exact ⟨h1, h2⟩
+
+theorem createPda_digest {s : List Bytes} {p d : Bytes} (h : createPda s p = some d) :
+    d = Prim.sha256 (s.flatten ++ p ++ "ProgramDerivedAddress".toUTF8.toList) :=
+  (createPda_some h).2.2
+
+/-- **`FindPda`** returns the address for the first bump, counting down from 255, whose digest is
+off the curve; all larger bumps were on the curve; bump 0 is never used -/
+theorem findPda_spec {seeds : List Bytes} {prog a : List Char} (h : findPda seeds prog = .ok a) :
+    ∃ progBytes b d, solDecode prog = .ok progBytes ∧ 1 ≤ b ∧ b ≤ 255 ∧
+      createPda (seeds ++ [toBytesAuto b]) progBytes = some d ∧ a = b58Encode btcAlphabet d ∧
+      (∀ b', b < b' → b' ≤ 255 → createPda (seeds ++ [toBytesAuto b']) progBytes = none) ∧
+      seeds.length ≤ 16 ∧ (∀ s ∈ seeds, s.length ≤ 32) := by
+  rw [findPda_eq] at h
+  split at h
+  · cases h
+  · rename_i h16
+    split at h
+    · cases h
+    · rename_i h32
+      split at h
+      · cases h
+      · rename_i pb hpb
+        split at h
+        · cases h
+        · rename_i d hd
+          obtain ⟨b, hb1, hb2, hb3, hb4⟩ := findPdaLoop_ok (Nat.le_refl 255) hd
+          refine ⟨pb, b, d, hpb, by omega, hb2, hb3, (Except.ok.inj h).symm, hb4, by omega, ?_⟩
+          intro s hs
+          by_contra hgt
+          apply h32
+          rw [List.any_eq_true]
+          exact ⟨s, hs, by simpa using hgt⟩
+
+/-- the bump seed appended to the seeds is the single byte `bump` -/
+theorem findPda_bump_byte (b : Nat) (h : b ≤ 255) : toBytesAuto b = [UInt8.ofNat b] :=
+  toBytesAuto_byte b (by omega)
+
+/-- **at most 255 attempts**: the search fails (with `ValueError`) iff the bumps 255 … 1 are all
+on the curve; bump 0 is not consulted -/
+theorem findPda_bound (seeds : List Bytes) (p : Bytes) :
+    findPdaLoop seeds p 255 255 = .error .value ↔
+      ∀ b, 1 ≤ b → b ≤ 255 → createPda (seeds ++ [toBytesAuto b]) p = none := by
+  rw [findPdaLoop_error_iff 255 255 (Nat.le_refl _)]
+  constructor
+  · intro h b h1 h2; exact h b (by omega) h2
+  · intro h b h1 h2; exact h b (by omega) h2
+
+/-- the loop has no other failure -/
+theorem findPdaLoop_errors {seeds : List Bytes} {p : Bytes} {e : Err}
+    (h : findPdaLoop seeds p 255 255 = .error e) : e = .value := findPdaLoop_error h
+
+/-- too many / too long seeds are refused before anything is hashed -/
+theorem findPda_seed_limits (seeds : List Bytes) (prog : List Char)
+    (h : seeds.length > 16 ∨ ∃ s ∈ seeds, s.length > 32) : findPda seeds prog = .error .value := by
+  rw [findPda_eq]
+  by_cases h16 : seeds.length > 16
+  · rw [if_pos h16]
+  · rw [if_neg h16]
+    cases h with
+    | inl h => exact absurd h h16
+    | inr h =>
+      obtain ⟨s, hs, hl⟩ := h
+      rw [if_pos]
+      rw [List.any_eq_true]
+      exact ⟨s, hs, by simpa using hl⟩
+
+/-- **seed order of the associated token account**: wallet, token program, mint -/
+theorem ata_seeds_order (w m t : List Char) :
+    associatedTokenAddress w m t = (do
+      let w' ← solDecode w
+      let t' ← solDecode t
+      let m' ← solDecode m
+      findPda [w', t', m'] splDefaultProgram) := rfl
+
 end BipVerif.Props.C20
